@@ -72,10 +72,11 @@ pub fn atom_leaves(full: bool) -> Vec<OwnedTerm> {
         "".into(), "a".into(), "ab".into(), "Elixir.Foo".into(), "é".into(), "€".into(), "😀".into(), "a".repeat(255), "a".repeat(256),
         "é".repeat(127), "é".repeat(128), "é".repeat(255), "b".repeat(65535), "ok".into(), "nil".into(), "undefined".into(), "true".into(),
     ];
+    // every name the library interns specially
+    for s in ["error", "false", "normal", "shutdown", "infinity", "badarg", "badarith", "badmatch", "noproc", "timeout"] {
+        v.push(s.into());
+    }
     if full {
-        for s in ["error", "false", "normal", "shutdown", "infinity", "badarg", "badarith", "badmatch", "noproc", "timeout"] {
-            v.push(s.into());
-        }
         v.push("€".repeat(21845)); // exactly 65535 bytes of 3-byte characters
     }
     v.iter().map(|s| atom(s)).collect()
